@@ -17,7 +17,7 @@ import multiprocessing as mp
 from . import boot
 
 NPROC = int(os.environ.get('VERIF_NPROC', '0')) or min(16, os.cpu_count() or 4)
-CASE_TIMEOUT = float(os.environ.get('VERIF_CASE_TIMEOUT', '60'))
+CASE_TIMEOUT = float(os.environ.get('VERIF_CASE_TIMEOUT', '600'))     # (generous: million-row tables on a loaded machine; a real hang is still reported)
 
 
 class CaseTimeout(Exception):
